@@ -346,7 +346,12 @@ impl Prop for C16 {
         let ctx = || format!("text:\n{text}\nsettings: {cfg:?} builder={} arrays={} custom_lexer={} dot={}", case.builder, case.arrays, case.custom_lexer, case.dot);
         // structural class for signatures: the text mentions a reserved symbol name
         let reserved = coarse_tokens(&text).iter().any(|t| matches!(t.as_str(), "STOP" | "AUG" | "AUGL"));
-        let rsv = if reserved { "|text-uses-reserved-name" } else { "" };
+        // (reserved names are rejected by the grammar builder since the fix of C16's reserved-name
+        // defect, so the class no longer takes part in signatures; it is kept as a histogram class)
+        if reserved {
+            st.class("text-mentions-reserved-name");
+        }
+        let rsv = "";
         let r = guarded(|| settings.process_grammar(&gpath));
         let class = match r {
             Err(p) => {
